@@ -113,7 +113,25 @@ def emit_item(it, ctx, meta, modpath, emit_items, weave_fn, filter_attrs, strip_
                 "\n".join(ctx.filter_attrs(c, ctx)) + "\n" + text_of(c.toks) for c in it.children) + "\n}"
             return "\n".join(attrs) + "\n" + raw
         pre = "\n".join(hoisted) + ("\n" if hoisted else "")
-        return pre + "\n".join(attrs) + ("\n" if attrs else "") + "%s {\n%s%s\n}" % (hdr, inj, inner)
+        post = ""
+        mconv = re.match(r"(impl\s*(?:<.*?>)?\s*)(?:[\w:]+::)?(TryFrom|From)\s*<(.*)>\s+for\s+(.*)$", hdr, re.S)
+        if mconv and it.impl_trait and it.impl_trait.split("<")[0] in ("TryFrom", "From"):
+            # R19: tell vstd that this conversion impl has no functional spec (obeys_*_spec() == false)
+            gen, kind, arg, target = mconv.group(1), mconv.group(2), mconv.group(3).strip(), mconv.group(4).strip()
+            if kind == "TryFrom":
+                err = "()"
+                for c in it.children:
+                    if c.kind == "type":
+                        me = re.search(r"type\s+Error\s*=\s*(.*?)\s*;", text_of(c.toks), re.S)
+                        if me:
+                            err = me.group(1)
+                post = ("\n%svstd::std_specs::convert::TryFromSpecImpl<%s> for %s {\n    open spec fn obeys_try_from_spec() -> bool { false }\n"
+                        "    open spec fn try_from_spec(v: %s) -> Result<Self, %s> { arbitrary() }\n}") % (gen, arg, target, arg, err)
+            else:
+                post = ("\n%svstd::std_specs::convert::FromSpecImpl<%s> for %s {\n    open spec fn obeys_from_spec() -> bool { false }\n"
+                        "    open spec fn from_spec(v: %s) -> Self { arbitrary() }\n}") % (gen, arg, target, arg)
+            ctx.log.append({"rule": "R19", "file": ctx.cur_file, "line": it.line, "what": "%sSpecImpl (obeys == false) added for %s" % (kind, it.key)})
+        return pre + "\n".join(attrs) + ("\n" if attrs else "") + "%s {\n%s%s\n}" % (hdr, inj, inner) + post
     if k == "fn":
         return weave_fn(it, ctx, meta, modpath)
     if k in ("const", "type", "static"):
@@ -167,6 +185,8 @@ def pub_fields(body):
                 depth += 1
             elif t.text in CLOSE or t.text == ">":
                 depth -= 1
+            elif t.text == ">>":
+                depth -= 2
             elif t.text == "," and depth == 0:
                 at_field_start = True
         out.append(t.text)
